@@ -225,7 +225,7 @@ func restoreBuiltins() {
 
 func init() {
 	register(&scenario{
-		Prop: "C19", Run: runC19, Race: true, Level: "exploration", Quick: 12000, Thorough: 400000, AbortIsViolation: true,
+		Prop: "C19", Run: runC19, Race: true, Level: "exploration", Quick: 100000, Thorough: 3000000, AbortIsViolation: true,
 		Rule: "one run = 2-4 client tasks x 1-6 operations over 1-3 algorithm names drawn from {Registry(distinct service object with unique id), Registry(non-service), Get, Remove, Clear} against the real codec registry, optionally pre-populated; a seeded scheduler switches tasks at instrumented statements of codec/checksum.go and at every lock operation (mean preemption gap per run from {never,1,3,10,40} statements), blocked lock waiters are woken in seeded order. Oracles: (i) the recorded history (invoke/return stamped with the scheduler's global event sequence) is linearizable w.r.t. a sequential map model (porcupine; Unknown = inconclusive, never reported); a Get never returns a service registered under another name; (ii) Go race detector with scheduler hand-offs hidden from it, so only the library's own locking orders accesses (a report kills the worker, is attributed, re-executed and reported); (iii) deadlock / unlock-of-unlocked monitor; (iv) all operations complete within the run's step budget. Non-trivial = at least one context switch happened inside an operation and the history was checked; distinct = distinct run fingerprints (tape draws + observed results + interleaving).",
 		Assumptions: []string{"linearizability only: no fairness or lock hand-off order is asserted", "race reports are attributed to the library only when a library frame is on a reported stack"},
 	})
@@ -343,6 +343,7 @@ func runC19(c *RunCtx) {
 	}
 	ih := interleavingHash(sched.Switches)
 	c.T.Observe(ih)
+	c.Aux = ih
 	// (iii) monitors
 	for _, tk := range sched.Tasks() {
 		if tk.Panic != nil {
@@ -440,7 +441,7 @@ func liteCall(f func() error) (r callLite) {
 
 func init() {
 	register(&scenario{
-		Prop: "C20", Run: runC20, Race: true, Level: "exploration", Quick: 12000, Thorough: 400000, AbortIsViolation: true,
+		Prop: "C20", Run: runC20, Race: true, Level: "exploration", Quick: 80000, Thorough: 2400000, AbortIsViolation: true,
 		Rule: "one run = 2-4 tasks, each encoding and decoding 1-4 of its own canonical messages (any of the 170 types, mixed protocols, frames included so the registry read lock and the discriminator tables are exercised) on its own buffers and receivers; a seeded scheduler switches tasks at instrumented statements of codec/ and the message packages (mean preemption gap per run from {never,1,3,10,40} statements); sync.Pool/Once/Mutex and go statements, should the tree use any, are under the scheduler. Oracles: every task's bytes/messages equal what the same operation produced alone beforehand on clones; Go race detector with scheduler hand-offs hidden from it; deadlock monitor. Non-trivial = at least one context switch landed inside a codec call and the comparison ran; distinct = distinct run fingerprints (tape draws + interleaving + outputs).",
 		Assumptions: []string{"'alone' results are computed in the same process before the tasks start, on clones of the same values", "race reports are attributed to the library only when a library frame is on a reported stack"},
 	})
@@ -516,7 +517,8 @@ func runC20(c *RunCtx) {
 	if sched.Contended > 0 {
 		c.Probe("lock-contended")
 	}
-	c.T.Observe(interleavingHash(sched.Switches))
+	c.Aux = interleavingHash(sched.Switches)
+	c.T.Observe(c.Aux)
 	if c.Tracing {
 		for ti, ops := range plans {
 			for _, op := range ops {
